@@ -257,7 +257,7 @@ def prov_failure_states(chk: Check) -> None:
     # what the state machinery does with them
     ex = prog.cls('process_states.Excepted')
     from .c13 import captured_fields
-    cap = {a: p for a, p, k in captured_fields(prog.view(ex.methods['__init__']))}
+    cap = {a: p for a, p, k in captured_fields(prog.view(ex.vmethods['__init__']))}
     chk.ob('PROV-failure-state', ex.qualname, cap.get('exception') == 'exception' and cap.get('traceback') == 'trace_back', f'Excepted stores them ({cap})', kind='stored')
     ge = prog.func('process_states.Excepted.get_exc_info')
     rets = [n for n in ast.walk(ge.node) if isinstance(n, ast.Return)]
@@ -274,7 +274,7 @@ def prov_failure_states(chk: Check) -> None:
         recv = cbf.canon.key(ce[0].func.value)
         cleared = set()
         pc_cls = cb.owner_class
-        for g in (pc_cls.methods.values() if pc_cls is not None else []):
+        for g in (pc_cls.vmethods.values() if pc_cls is not None else []):
             for n_ in ast.walk(g.node):
                 if isinstance(n_, ast.Assign) and norm(n_.value) == 'None' and g is not cb:
                     cleared |= {norm(t_) for t_ in n_.targets}
